@@ -354,6 +354,28 @@ def work(job):
         out["queries"] = nq + I.feas_queries
         out["fns"] = K.fn_table(I)
         out["want"] = want
+        # translator validation: the shape is a concrete DOM call (only ids / keys are symbolic), so the compiled code must end on one of
+        # the feasible paths - outcome class and child list of the receiver - whatever the verdict on the property is
+        preds = []
+        for p_ in paths:
+            if len(preds) >= 4:
+                break
+            s_ = z3.Solver()
+            s_.set("timeout", 20000)
+            for c_ in I.base:
+                s_.add(c_)
+            for c_ in p_["pc"]:
+                s_.add(c_)
+            out["queries"] += 1
+            if s_.check() != z3.sat:
+                continue
+            if p_["kind"] == "panic":
+                preds.append({"result": "panic", "msg": str(p_.get("msg"))[:80]})
+            else:
+                r_, obs_ = p_["value"]
+                preds.append({"result": "Ok" if (isinstance(r_, Enum) and r_.variant == "Ok") else err_class(r_), "children": obs_["children"].get("P")})
+        out["tv"] = {"w": {"kinds": kinds, "gc": gc, "action": action, "new": who + ((new_idx,) if who[0] == "child" else ()), "ref": ref_sel, "specified": want,
+                           "specified_children": tree2 if want == "ok" else st_s.tree}, "preds": preds}
         if verdict == "sat":
             mdl, p = info
             out["status"] = "sat"
@@ -834,6 +856,75 @@ def obligations(rep, rp, prop, tier, jobs_n=16):
                 rep.inconclusive.append("%s: class %s has %d model witnesses, none reproduced (first: %s)" % (oid, cls, len(lst), lst[0]["witness"]))
         rep.obligation(oid, status, reach="sat", shapes=g["shapes"], shapes_holding=g["holds"], shapes_with_witness=len(g["bad"]), paths=g["paths"],
                        classes={c: len(v) for c, v in classes.items()}, reported=reported)
+    try:
+        translator_validation(rep, rp, prop, results)
+    except Exception:
+        import traceback
+        rep.inconclusive.append("translator validation failed: " + traceback.format_exc()[-600:])
+
+
+def translator_validation(rep, rp, prop, results):
+    """every shape of the tree step is a concrete DOM call: run it on the compiled code (replay op `mutate`) and require the outcome class and
+    the receiver's child list of one of the model's feasible paths.  A disagreement in which the compiled code also breaks the property's
+    specified outcome for that call is a violation shown on the real code; any other disagreement = the encoding misrepresents the code."""
+    agree, disagree, samples = 0, 0, []
+    violated_actions = {v[0] for v in rep.violations}
+    for res in results:
+        tv = res.get("tv")
+        if not tv or not tv["preds"] or res.get("skipped"):
+            continue
+        w = tv["w"]
+        case = replay_case(w)
+        if case is None:
+            continue
+        rr = rp.run(case)
+        if "doc_err" in rr:
+            continue
+        kinds, who = tuple(w["kinds"]), tuple(w["new"]) if w["new"] else ()
+        if "panic" in rr or "died" in rr:
+            got = ("panic", None)
+        else:
+            got = ("Ok" if rr.get("ok") else str(rr.get("err")), rr.get("after"))
+        ok = False
+        for pr in tv["preds"]:
+            if pr["result"] == "panic":
+                ok = ok or got[0] == "panic"
+                continue
+            if got[0] == "panic":
+                continue
+            same_class = (got[0] == "Ok") if pr["result"] == "Ok" else (got[0] != "Ok" and pr["result"] in got[0])
+            kids = [label_of(n, kinds, who) for n in (pr["children"] or [])]
+            ok = ok or (same_class and kids == got[1])
+        if ok:
+            agree += 1
+            if len(samples) < 6:
+                samples.append({"case": case, "compiled_and_model": {"result": got[0], "children_of_p": got[1]}})
+            continue
+        disagree += 1
+        oid = "%s.s.tree.%s" % (prop, w["action"])
+        full = dict(case)
+        full.update({"property": prop, "specified": w["specified"]})
+        kids, walk = expected_real(w)
+        if prop == "C13":
+            full["expected_children"] = kids
+        if prop == "C14" or (prop == "C13" and w["specified"] != "ok"):
+            full["expected_walk"] = walk
+        breaks = judge(full, rr) if not (prop != "C13" and ("panic" in rr or "died" in rr)) else False
+        if breaks:
+            if not any(v.startswith(oid) for v in violated_actions):
+                violated_actions.add(oid)
+                rep.violation(oid + ".tv", full, "%s(%s, %s) on <p> of %s: specified %s, the compiled code gives %s (the source-level model: %s; found by translator validation)" % (
+                    w["action"], json.dumps(full.get("new")), json.dumps(full.get("ref")), full["input"], w["specified"],
+                    {k: rr.get(k) for k in ("ok", "err", "panic", "after") if k in rr}, tv["preds"]))
+                for o in rep.obligations:
+                    if o["id"] == oid:
+                        o["status"] = "violated"
+        else:
+            rep.inconclusive.append("translator validation %s: on %s the S-kernel's feasible paths give %s, the compiled code %s" % (
+                oid, json.dumps(case)[:240], tv["preds"], {k: rr.get(k) for k in ("ok", "err", "panic", "after") if k in rr}))
+    rep.tv_cases += agree
+    rep.extra["translator_validation_tree_step" if "translator_validation" in rep.extra else "translator_validation"] = {"agreeing": agree, "disagreeing": disagree, "samples": samples,
+                                          "how": "every shape of the tree step is a concrete DOM call (only ids and order keys are symbolic): it is run through /verif/replay (op mutate) and the compiled outcome - Ok / exception class / panic and the child list of the receiver - must be the one of a feasible path of the S-kernel"}
 
 
 def classify(prop, w):
